@@ -1133,6 +1133,14 @@ CALLABLES = {
     "ACls": ("ACls", "alters"),
     "u.inherited_boom": ("inherited_boom", "unsafe"),
     "cobj_plain": ("cobj_plain", "safe"),
+    # bound methods the overriding environment rejects because of the instance they are bound to (a marked "model"
+    # instance) or because the bound method is on its block list; unmarked and allowed under the default policy
+    "mdl.save": ("mdl.save", "model"),
+    "mdl['save']": ("mdl.save", "model"),
+    "(mdl|attr('ok'))": ("mdl.ok", "model"),
+    "mdl.child.save": ("mdl.child.save", "model"),
+    "u.listed": ("listed", "model"),
+    "cd2.m": ("mdl.save", "model"),
     # safe at their first use, flagged alters_data from then on (the case performs that first use before the call site)
     "late_fn": ("late_fn", "late"),
     "u.late": ("late", "late"),
